@@ -337,12 +337,16 @@ def c07(res, tier, rng, wd):
     scs = e1.gen_c07(rng, 0, 6000 if thorough else 700, decs)
     run_e1(res, "C07", scs, wd, "c07")
     run_e2(res, "C07", e2.gen_c07_client(rng, 3000 if thorough else 400), wd, "c07client")
+    # "the task, its other sessions and every API handle remain usable": hostile bytes on some sessions of a real server task
+    run_e4(res, "C07", e4.gen_c07_isolation(rng, 120 if thorough else 18, thorough), wd, "c07isolation")
     res.assumptions = E1_ASSUME + ["coverage of the input space is that of a structured fuzzer (grammar-aware mutation + random bytes), "
                                    "TLC decides each run: a panic, a task that never becomes idle, a watchdog hit or an unhonoured shutdown has no matching spec step",
                                    "dev profile: overflow checks and debug assertions on"]
     return res.finish(rule="hostile streams for the server session: random bytes, mutated valid traffic (bit flips, truncation, "
                            "duplication, length lies, splices), boundary addresses, both framings, sampled decode levels; after each stream a "
-                           "sentinel exchange and shutdown must still be honoured")
+                           "sentinel exchange and shutdown must still be honoured; on a real TCP / TLS server task: malformed headers with "
+                           "random tails on 1..3 of 2..5 sessions while the other sessions, new connections, level changes and the final "
+                           "shutdown / handle drop must be served exactly as ServerTaskTrace.tla prescribes")
 
 
 @check("C08")
